@@ -63,6 +63,41 @@ def make_scripted():
     return Scripted
 
 
+def make_real_scripted():
+    """a real MersenneTwister whose wrapped generator is scripted (so that the
+    library's own next_int / next_bool are in the loop); None when the
+    wrapping attribute is not there"""
+    import random as _random
+    from pydsol.core.streams import MersenneTwister
+
+    class Gen(_random.Random):
+        def __init__(self, script, tail):
+            super().__init__(12345)
+            self.script = list(script)
+            self.tail = tail
+            self.i = 0
+
+        def random(self):
+            i = self.i
+            self.i += 1
+            if i < len(self.script):
+                return self.script[i]
+            return self.tail[(i - len(self.script)) % len(self.tail)]
+
+    class RealScripted(MersenneTwister):
+        def __init__(self, script=(), tail=(0.3, 0.6, 0.45, 0.8, 0.15)):
+            super().__init__(1)
+            self._random = Gen(script, tail)
+
+        @property
+        def i(self):
+            return self._random.i
+    probe = MersenneTwister(1)
+    if not hasattr(probe, "_random"):
+        return None
+    return RealScripted
+
+
 def weyl(k, a=0.6180339887498949, b=0.137):
     """deterministic equidistributed sequence in (0,1) for multi-draw runs"""
     return [((i + 1) * a + b) % 1.0 for i in range(k)]
@@ -100,6 +135,15 @@ def cases():
          iwithin(-2, 3)),
         ("DiscreteUniform(5,6)", lambda s: D.DistDiscreteUniform(s, 5, 6),
          iwithin(5, 6)),
+        ("DiscreteUniform(-6,-1)@MT",
+         lambda s: D.DistDiscreteUniform(s, -6, -1), iwithin(-6, -1)),
+        ("DiscreteUniform(-3,3)@MT",
+         lambda s: D.DistDiscreteUniform(s, -3, 3), iwithin(-3, 3)),
+        ("DiscreteUniform(2^53+1,2^53+3)@MT",
+         lambda s: D.DistDiscreteUniform(s, 2 ** 53 + 1, 2 ** 53 + 3),
+         iwithin(2 ** 53 + 1, 2 ** 53 + 3)),
+        ("Bernoulli(0.3)@MT", lambda s: D.DistBernoulli(s, 0.3),
+         iwithin(0, 1)),
         ("Erlang(2,1)", lambda s: D.DistErlang(s, 2.0, 1), nn),
         ("Erlang(2,3)", lambda s: D.DistErlang(s, 2.0, 3), nn),
         ("Erlang(2,12)", lambda s: D.DistErlang(s, 2.0, 12), nn),
@@ -156,11 +200,17 @@ def raising_site(ex):
 
 def script_worker(task):
     lo, hi = task
-    Scripted = make_scripted()
+    Scripted0 = make_scripted()
+    Real = make_real_scripted()
     n = 0
     viols = []
     nontriv = 0
     for name, mk, support in cases()[lo:hi]:
+        Scripted = Scripted0
+        if name.endswith("@MT"):
+            if Real is None:
+                continue
+            Scripted = Real
         seen_sig = set()
         for L in (1, 2, 3):
             for script in itertools.product(ALPHA, repeat=L):
@@ -248,7 +298,7 @@ def interplay_worker(task):
     K = 5
     for name, mk, support in C[lo:hi]:
         if name in ("Geometric(0.0)", "Geometric(1.0)", "NegBinomial(2,0.0)",
-                    "NegBinomial(2,1.0)"):
+                    "NegBinomial(2,1.0)") or name.endswith("@MT"):
             continue
         alone = seq_of(mk(Scripted(weyl(200))), K)
         # (a) same parameters on equally delivering streams, instances
